@@ -221,6 +221,11 @@ def main(tier):
             continue
         diff = [k for k in ("its", "rho", "e2", "einf", "sol", "haveerr") if x.get(k) != y.get(k)]
         rho = gl.num(x, "rhod")
+        want_err = "1" if (cfgs[i].get("exact", 1) == 1 and "argv" not in cfgs[i]) else "0"
+        if x.get("haveerr") != want_err and cfgs[i].get("exact", 1) == 0:
+            rep.violation("stats:error-figure-without-exact-solution", "exactErrorWeightedEuclidean()/exactErrorInfinity() report a value although no "
+                          "exact solution is attached (haveerr=%s)  [options %s]" % (x.get("haveerr"), json.dumps(c01.short(cfgs[i]))),
+                          {"config": cfgs[i], "entry": "stats"})
         if diff:
             rep.violation("stats:garbage-dependent:%s" % "+".join(diff), "statistics depend on uninitialised memory: %s differ between two runs "
                           "that only differ in the stack/heap fill pattern (e.g. %s=%s vs %s)  [options %s]" %
